@@ -118,10 +118,11 @@ def heap_pairing_rules(ctx, add):
                 rem_e, ins_e = tree_rem[0]["args"][1], tree_ins[0]["args"][1]
                 rn = dict(rem_e[3]).get("n") if rem_e[0] == "adt" else None
                 inn = dict(ins_e[3]).get("n") if ins_e[0] == "adt" else None
-                if rn != mk("Sub", cell, const(1)):
-                    probs_pair.append("known key: the tree entry removed has count %s, expected the counter before the increment" % (fmt(rn) if rn else "?"))
+                # `cell` is the counter as read BEFORE the increment (reads after the store are forwarded to the stored value)
                 from ..terms import linear_eq
-                if inn is None or not (linear_eq(inn, cell) or inn == cell):
+                if rn is None or not (rn == cell or linear_eq(rn, cell)):
+                    probs_pair.append("known key: the tree entry removed has count %s, expected the counter before the increment" % (fmt(rn) if rn else "?"))
+                if inn is None or not (inn == val or linear_eq(inn, val)):
                     probs_pair.append("known key: the tree entry re-inserted has count %s, expected the new counter" % (fmt(inn) if inn else "?"))
         if pat not in ((1, 1, 0, 0, 1), (1, 0, 1, 0, 0), (1, 1, 1, 1, 0), (0, 0, 0, 0, 0)):
             probs_pair.append("operation pattern tree(+%d -%d) map(+%d -%d upd %d) is none of the four documented cases" % pat)
